@@ -51,7 +51,7 @@ func envInt(k string, def int64) int64 {
 	return def
 }
 
-// walkPath replays one path on a fresh world.  Returns the index of the first diverging step
+// walkPath replays one path on a fresh system.  Returns the index of the first diverging step
 // (or -1) with its mismatches.
 func walkPath(t *testing.T, g *Graph, seed int64, path []Edge) (int, []Mismatch, any, any, int) {
 	t.Helper()
@@ -60,27 +60,23 @@ func walkPath(t *testing.T, g *Graph, seed int64, path []Edge) (int, []Mismatch,
 	var exp, got any
 	steps := 0
 	synctest.Test(t, func(t *testing.T) {
-		w, err := NewWorld(g.Meta, seed)
+		sys, err := NewSys(g.Meta, seed, path[0].SS)
 		if err != nil {
-			t.Fatalf("world: %v", err)
+			t.Fatalf("system: %v", err)
 		}
 		defer func() {
-			w.Close()
+			sys.Close()
 			synctest.Wait()
 		}()
 		for i, e := range path {
-			obs, err := w.Do(e.A, synctest.Wait)
+			obs, err := sys.Do(e.A, synctest.Wait)
 			if err != nil {
 				step, mm = i, []Mismatch{{"harness", err.Error()}}
 
 				return
 			}
 			steps++
-			pr := w.Project()
-			name, _ := e.A["a"].(string)
-			ms := CompareOut(e.O, obs, pr, w, e.A)
-			ms = append(ms, CompareState(e.TS, pr, actorOf(e.A), name == "Advance")...)
-			if len(ms) > 0 {
+			if ms := sys.Check(e, obs); len(ms) > 0 {
 				step, mm, exp, got = i, ms, e.O, obs
 
 				return
@@ -124,61 +120,95 @@ func TestWalk(t *testing.T) {
 		all[e.Cls] = true
 	}
 	res.ClassesAll = len(all)
-	paths := g.Plan(seed, frac, int(envInt("VERIF_PERCLASS", 3)), int(envInt("VERIF_MAXLEN", 48)))
+	want := g.Want(seed, frac, int(envInt("VERIF_PERCLASS", 3)))
+	if os.Getenv("VERIF_MODE") == "traces" {
+		// the file holds behaviours printed by `tlc -simulate`: consecutive edges chain; a new
+		// behaviour starts where an edge's source is not the previous edge's target
+		for i := range want {
+			want[i] = false
+		}
+	}
 	walked := map[int]bool{}
+	bad := map[int]bool{} // edges on which the code diverged: later rounds route around them
 	maxViol := int(envInt("VERIF_MAXVIOL", 5))
 	outDir := os.Getenv("VERIF_REPLAYDIR")
-	for pi, p := range paths {
-		es := make([]Edge, len(p))
-		for i, ei := range p {
-			es[i] = g.Edges[ei]
-		}
-		step, mm, exp, got, steps := walkPath(t, g, seed, es)
-		res.Paths++
-		res.Steps += steps
-		upto := len(p)
-		if step >= 0 {
-			upto = step
-		}
-		for i := 0; i < upto; i++ {
-			res.EdgesWalked++
-			if !walked[p[i]] {
-				walked[p[i]] = true
-				res.Classes[es[i].Cls]++
+	pi := 0
+rounds:
+	for round := 0; round < 7; round++ {
+		paths := g.PlanFor(want, walked, bad, int(envInt("VERIF_MAXLEN", 48)))
+		if os.Getenv("VERIF_MODE") == "traces" {
+			if round > 0 {
+				break
 			}
+			paths = g.Traces()
+		} else if round == 6 || (len(paths) == 0 && round < 6) {
+			// last round: seeded random walks (long histories through already covered edges)
+			paths = g.RandomWalks(seed, int(envInt("VERIF_RANDWALKS", 300)), int(envInt("VERIF_RANDLEN", 40)), bad)
+			round = 6
 		}
-		if pi < 3 {
-			res.Samples = append(res.Samples, actionsOf(es))
-		}
-		if step < 0 {
-			continue
-		}
-		v := Violation{Path: actionsOf(es[:step+1]), Step: step, Mismatch: mm, Expected: exp, Observed: fmtObs(got)}
-		owned := false
-		for _, m := range mm {
-			if m.Kind == "harness" || OwnedBy(m, es[step].A, prop) {
-				owned = true
-			}
-		}
-		if !owned {
-			if len(res.Abandoned) < 20 {
-				res.Abandoned = append(res.Abandoned, v)
-			}
-
-			continue
-		}
-		if outDir != "" {
-			_ = os.MkdirAll(outDir, 0o755)
-			v.Replay = fmt.Sprintf("%s/%s-%s-seed%d-%d.json", outDir, prop, res.Family, seed, len(res.Violations))
-			b, _ := json.MarshalIndent(map[string]any{
-				"engine": "walk", "family": res.Family, "prop": prop, "seed": seed, "meta": g.Meta,
-				"path": es[:step+1], "mismatch": mm,
-			}, "", " ")
-			_ = os.WriteFile(v.Replay, b, 0o644)
-		}
-		res.Violations = append(res.Violations, v)
-		if len(res.Violations) >= maxViol {
+		if len(paths) == 0 {
 			break
+		}
+		for _, p := range paths {
+			es := make([]Edge, len(p))
+			for i, ei := range p {
+				es[i] = g.Edges[ei]
+			}
+			step, mm, exp, got, steps := walkPath(t, g, seed, es)
+			res.Paths++
+			res.Steps += steps
+			upto := len(p)
+			if step >= 0 {
+				upto = step
+			}
+			for i := 0; i < upto; i++ {
+				res.EdgesWalked++
+				if !walked[p[i]] {
+					walked[p[i]] = true
+					res.Classes[es[i].Cls]++
+				}
+			}
+			if pi < 3 {
+				res.Samples = append(res.Samples, actionsOf(es))
+			}
+			pi++
+			if step < 0 {
+				continue
+			}
+			bad[p[step]] = true
+			if os.Getenv("VERIF_MODE") == "traces" && step+1 < len(p) {
+				// the rest of the behaviour is still worth checking: the spec state after the
+				// diverging step is known, but the real server has left it, so start it afresh
+				// only when the remainder begins in an initial state -- otherwise drop it
+				_ = step
+			}
+			v := Violation{Path: actionsOf(es[:step+1]), Step: step, Mismatch: mm, Expected: exp, Observed: fmtObs(got)}
+			owned := false
+			for _, m := range mm {
+				if m.Kind == "harness" || OwnedBy(m, es[step].A, prop) {
+					owned = true
+				}
+			}
+			if !owned {
+				if len(res.Abandoned) < 20 {
+					res.Abandoned = append(res.Abandoned, v)
+				}
+
+				continue
+			}
+			if outDir != "" {
+				_ = os.MkdirAll(outDir, 0o755)
+				v.Replay = fmt.Sprintf("%s/%s-%s-seed%d-%d.json", outDir, prop, res.Family, seed, len(res.Violations))
+				b, _ := json.MarshalIndent(map[string]any{
+					"engine": "walk", "family": res.Family, "prop": prop, "seed": seed, "meta": g.Meta,
+					"path": es[:step+1], "mismatch": mm,
+				}, "", " ")
+				_ = os.WriteFile(v.Replay, b, 0o644)
+			}
+			res.Violations = append(res.Violations, v)
+			if len(res.Violations) >= maxViol {
+				break rounds
+			}
 		}
 	}
 	res.EdgesDist = len(walked)
